@@ -286,6 +286,10 @@ func cmdStruct(args []string) {
 					line = "map hidden Open | Fn"
 				case "ignoreMissing":
 					line = "ignoreMissing"
+				case "mappath":
+					st, line = "q.SQ3", "map inner.X Open"
+				case "automap":
+					st, line = "q.SQ3", "autoMap inner"
 				}
 			}
 			fmt.Fprintf(&src, "\n// goverter:converter\n%stype C%d interface {\n", head(i), i)
@@ -356,7 +360,9 @@ func cmdStruct(args []string) {
 		case "update-odd":
 			var q map[string]any
 			hx.Must(json.Unmarshal(s.Prog, &q))
-			if q["x"] == "noncomparable-struct" {
+			if q["x"] == "pointer-source-fault" {
+				fmt.Fprintf(&src, "\n// goverter:converter\n%stype C%d interface {\n\t// goverter:update target\n\tUpdate(source *UWS, target *UWT)\n}\n", head(i), i)
+			} else if q["x"] == "noncomparable-struct" {
 				fmt.Fprintf(&src, "\n// goverter:converter\n// goverter:skipCopySameType\n%stype C%d interface {\n\t// goverter:update target\n\t// goverter:update:ignoreZeroValueField:struct\n\tUpdate(source UOS, target *UOT)\n}\n", head(i), i)
 			} else {
 				fmt.Fprintf(&src, "\n// goverter:converter\n// goverter:skipCopySameType\n%stype C%d interface {\n\t// goverter:update target\n\t// goverter:map . All\n\tUpdate(source *UDS, target *UDT)\n}\n", head(i), i)
@@ -465,7 +471,7 @@ func cmdStruct(args []string) {
 		}
 	}
 	hx.WriteTree(*work, map[string]string{"p/in.go": src.String(), "sp/in.go": srcSP.String(), "wx/wx.go": wxSource,
-		"q/q.go": "package q\n\ntype SQ1 struct {\n\tOpen int\n\tB    int\n}\ntype TQ struct {\n\tOpen   int\n\tsecret int\n}\ntype SQ2 struct {\n\thidden int\n\tB      int\n}\ntype TQ2 struct{ Open int }\n\nfunc (t TQ) Secret() int { return t.secret }\nfunc NewSQ2(h int) SQ2 { return SQ2{hidden: h} }\n"})
+		"q/q.go": "package q\n\ntype SQ1 struct {\n\tOpen int\n\tB    int\n}\ntype TQ struct {\n\tOpen   int\n\tsecret int\n}\ntype SQ2 struct {\n\thidden int\n\tB      int\n}\ntype TQ2 struct{ Open int }\ntype Inner3 struct{ X, Open int }\ntype SQ3 struct {\n\tinner Inner3\n\tB     int\n}\n\nfunc (t TQ) Secret() int { return t.secret }\nfunc NewSQ2(h int) SQ2 { return SQ2{hidden: h} }\n"})
 	t0 := time.Now()
 	all, err := hx.GenerateEach(hx.GenConfig(*work, []string{"./p", "./sp"}, nil))
 	hx.Must(err)
